@@ -45,7 +45,7 @@ Theorem C14_header_wins_partial : forall ph c o ex gen ua cid defaults n v,
   ci_user n (net c) = Some v ->
   (auth c = None \/ leq n AUTHORIZATION = false) ->
   ((ph = Coverage \/ ph = Stateful) -> outside_F3 n = true) ->
-  (ph = Stateful -> no_ci_key n (Some (entry c o LHeaders)) = true) ->
+  ((ph = Coverage \/ ph = Stateful) -> no_ci_key n (Some (entry c o LHeaders)) = true) ->
   ci_get n (wire ph c o ex gen ua cid defaults) = Some v.
 Proof. exact net_header_wins. Qed.
 Print Assumptions C14_header_wins_partial.
@@ -68,13 +68,14 @@ Proof.
 Qed.
 Print Assumptions C14_header_wins_refuted_user_agent.
 
-(* header overrides (--set-header): exact declared name, read case-insensitively on the wire.
-   Unit phases: only outside F1 (no --header configured at the same time). *)
+(* header overrides (--set-header): exact declared name, read case-insensitively on the wire,
+   in ALL FOUR phases also when --header is configured (repo commit 9a3b607c).  Remaining
+   regions: F4 (--header names the same header modulo case), F3 where Case.headers can be a
+   plain dict, and the generator's exclude= contract. *)
 Theorem C14_override_header_wins_partial : forall ph c o ex gen ua cid defaults n v,
   has_override c = true ->
   ci_user n (entry c o LHeaders) = Some v ->
-  (ph <> Stateful -> outside_F1 c = true) ->
-  (ph = Stateful -> no_ci_key n (Some (net c)) = true) ->
+  outside_F4 c n = true ->
   ((ph = Fuzzing \/ ph = Examples) -> no_ci_key n gen = true) ->
   ((ph = Coverage \/ ph = Stateful) -> outside_F3 n = true) ->
   (auth c = None \/ leq n AUTHORIZATION = false) ->
@@ -82,17 +83,34 @@ Theorem C14_override_header_wins_partial : forall ph c o ex gen ua cid defaults 
 Proof. exact override_header_wins. Qed.
 Print Assumptions C14_override_header_wins_partial.
 
-(* F1: get_strategy_kwargs overwrites the header overrides with the network headers *)
-Theorem C14_override_header_wins_refuted : exists c o gen ua cid defaults n v g,
+(* F4: the same header name configured by --header and --set-header: the transport merge is
+   the last writer and the --header value is sent in every phase, not the override *)
+Theorem C14_override_header_wins_refuted_same_name : exists c o gen ua cid defaults n v w,
   has_override c = true /\ ci_user n (entry c o LHeaders) = Some v /\
-  no_ci_key n (Some (net c)) = true /\ outside_F3 n = true /\ auth c = None /\
-  ci_get n (wire Fuzzing c o None gen ua cid defaults) = Some g /\
-  ci_get n (wire Coverage c o None gen ua cid defaults) = Some g /\ g <> v /\
-  ci_get n (wire Stateful c o None gen ua cid defaults) = Some v.
+  outside_F3 n = true /\ auth c = None /\ no_ci_key n gen = true /\ w <> v /\
+  ci_get n (wire Examples c o None gen ua cid defaults) = Some w /\
+  ci_get n (wire Coverage c o None gen ua cid defaults) = Some w /\
+  ci_get n (wire Fuzzing c o None gen ua cid defaults) = Some w /\
+  ci_get n (wire Stateful c o None gen ua cid defaults) = Some w.
 Proof.
-  exists c_F1, o_F1, (Some [(s_xover, [71])]), [115;116], [49], [], s_xover, [79;86], [71]. exact F1_refuted.
+  exists c_F4, o_F1, (Some [(s_xg, [71])]), [115;116], [49], [], s_xover, [79;86], [78;69;84]. exact F4_refuted.
 Qed.
-Print Assumptions C14_override_header_wins_refuted.
+Print Assumptions C14_override_header_wins_refuted_same_name.
+
+(* F1 (FIXED in the repo): regression witness.  On get_strategy_kwargs_prefix - the function as it
+   was before commit 9a3b607c, which overwrote the header overrides with the network headers - the
+   unit phases send the generated value; on the function as it is now all four phases send the override *)
+Theorem C14_override_header_wins_refuted_prefix : exists c o ua cid defaults n v g,
+  has_override c = true /\ ci_user n (entry c o LHeaders) = Some v /\
+  outside_F4 c n = true /\ outside_F3 n = true /\ auth c = None /\
+  ci_get n (wire_prefix Fuzzing c o None (Some [(n, g)]) ua cid defaults) = Some g /\
+  ci_get n (wire_prefix Coverage c o None (Some [(n, g)]) ua cid defaults) = Some g /\ g <> v /\
+  ci_get n (wire Fuzzing c o None (Some [(s_xg, g)]) ua cid defaults) = Some v /\
+  ci_get n (wire Examples c o (Some [(n, g)]) (Some [(s_xg, g)]) ua cid defaults) = Some v /\
+  ci_get n (wire Coverage c o None (Some [(n, g)]) ua cid defaults) = Some v /\
+  ci_get n (wire Stateful c o None (Some [(n, g)]) ua cid defaults) = Some v.
+Proof. exists c_F1, o_F1, [115;116], [49], [], s_xover, [79;86], [71]. exact F1_regression. Qed.
+Print Assumptions C14_override_header_wins_refuted_prefix.
 
 (* the ignored_auth probe: removes exactly the security parameters (exact name in plain
    dicts, case-insensitive in a CaseInsensitiveDict) and nothing else *)
